@@ -146,6 +146,7 @@ func WorkerMain(parallel int, caseLimit time.Duration, run func(idx int) *CaseRe
 // A worker that dies is restarted for its remaining scenarios; the scenarios in flight at the time of death
 // are re-run alone, each in its own process, and a scenario that kills its process again is reported as a
 // violation with signature crashSig(idx) ("terminates the proxy process").
+// dir must be private to this run (concurrent runs of the same check must not share it).
 func RunAll(workers, total int, dir string, crashSig func(idx int, stderr string) (sig, desc string, replay interface{})) *Aggregate {
 	os.RemoveAll(dir)
 	os.MkdirAll(dir, 0o755)
@@ -298,6 +299,9 @@ func RunAll(workers, total int, dir string, crashSig func(idx int, stderr string
 		}(w)
 	}
 	wg.Wait()
+	if agg.EngineErr == "" && agg.Crashes == 0 {
+		os.RemoveAll(dir) // the progress files are large; keep them only when something needs a post-mortem
+	}
 	return agg
 }
 
